@@ -92,7 +92,7 @@ def tree_violation(fl, lists, letthrough, doc):
             akey = (a[0], a[1])
             if akey not in lists["allowed_attributes"]:
                 return "attribute", "attribute %r on <%s> appears after re-parsing but is not on the allow-list" % (akey, r[3]), r
-            if akey in lists["attr_val_is_uri"]:
+            if akey in lists.get("_uri_attrs_oracle", lists["attr_val_is_uri"]):
                 scheme, rest = c09.url_scheme(a[2])
                 if scheme is not None:
                     if scheme not in lists["allowed_protocols"]:
@@ -131,6 +131,9 @@ def check_case(case):
                 ns = t["namespace"] if t["namespace"] is not None else HTML_NS
                 if (ns, t["name"]) not in lists["allowed_elements"] or any(k not in lists["allowed_attributes"] for k in t["data"]):
                     had_bad = True
+        pre = c09.predicate(c09._snap(toks), let, lists)
+        if pre is not None:
+            return Verdict("fail", "the sanitized token stream itself violates the allow-lists: %s; input %s" % (pre[1], short(text, 250)), "sanitizer-stream:" + pre[0], nontrivial=True)
         let_attrs = set()
         for t in let:
             if t["type"] in ("StartTag", "EmptyTag"):
